@@ -93,6 +93,7 @@ let install register =
       outcome_ints (Model.xz_block_sizes_entry Model.xz_orig (optz bs) (zs d) (zeros_of_lens lens)) | _ -> "BADARGS");
   register "xz_read" (xz_read Model.xz_fixed true);
   register "xz_read_old" (xz_read Model.xz_orig false);
+  register "xz_big" (function _ -> "SKIP");
   register "xz_spec" (function lenient :: skip :: file :: cap :: _ ->
       if skip = "1" then "SKIP" else
       (match Model.xz_spec_decode_capped (lenient = "1") (zs cap) (unhex file) with Some d -> "OK " ^ hex d | None -> "REJECT") | _ -> "BADARGS");
